@@ -17,6 +17,7 @@ from amaranth.lib import data
 
 from transactron.utils.assign import assign, AssignType
 from engine.comb import Comb
+from engine.hw import Recorder
 
 PROPERTY = "C40"
 LEVEL = "proof"
@@ -226,11 +227,13 @@ def run(cfg, ctx):
             # init pattern on the LHS signals
             lsigs2 = []
             lhs = build_with_init(ld, lrep, "l", lsigs2, P)
-            try:
-                stmts = list(assign(lhs, rhs, fields=conv_fields(fields)))
-                err = None
-            except (ValueError, KeyError, TypeError) as e:
-                stmts, err = None, f"{type(e).__name__}: {e}"
+            with Recorder() as rec:  # the /repo functions that ran inside assign() (reported as functions under contract)
+                try:
+                    stmts = list(assign(lhs, rhs, fields=conv_fields(fields)))
+                    err = None
+                except (ValueError, KeyError, TypeError) as e:
+                    stmts, err = None, f"{type(e).__name__}: {e}"
+            ctx.functions.update(rec.functions)
             if (err is None) != (exp_err is None):
                 fails.append({"case": tag, "lhs": repr((ld, lrep)), "rhs": repr((rd, rrep)), "fields": repr(fields), "spec": exp_err or "accepts", "assign": err or "accepted"})
                 break
